@@ -15,7 +15,7 @@ RULE = ('every DriverProxy method (add_publication, add_exclusive_publication, r
         '2^32, MAX-1, MAX, random}); ids from {MIN, -1, 0, 1, MAX, random}; channel lengths 0..700 with every length within 6 of the '
         'largest that fits the 512-byte command buffer (488 / 480 / 484 for publication / subscription / destination messages); counter '
         'keys 0..112 x labels 0..380 stratified (all 4 key residues mod 4, every pair on the 512-byte boundary and the two lengths '
-        'around it; all 113 x 381 pairs in thorough); tokens 0..600 (dense around 492). Observation = API result, records parsed from '
+        'around it; all 113 key lengths x 40 label lengths in thorough); tokens 0..600 (dense around 492). Observation = API result, records parsed from '
         'the ring memory, records delivered by ring.read, tail, next correlation id. A case is non-trivial when the message carries a '
         'string / key / token of >= 16 bytes or an id outside the i32 range; distinct = distinct case tuples')
 ASSUMPTIONS = [
@@ -91,7 +91,12 @@ def generate(rng, tier):
     # counters: key length x label length
     pairs = set()
     if big:
-        pairs |= {(kn, ln) for kn in range(0, 113) for ln in range(0, 381)}
+        # every key length, with every label length on / around the 512-byte boundary and a stratified rest
+        for kn in range(0, 113):
+            a = (kn + 3) // 4 * 4
+            edge = CMD_BUF - 28 - a
+            lns = set(range(0, 9)) | {edge - 2, edge - 1, edge, edge + 1, edge + 2, 379, 380} | {rng.randrange(0, 381) for _ in range(24)}
+            pairs |= {(kn, ln) for ln in lns if 0 <= ln <= 380}
     else:
         for kn in list(range(0, 14)) + [31, 32, 33, 64, 101, 109, 110, 111, 112]:
             a = (kn + 3) // 4 * 4
